@@ -574,8 +574,8 @@ def settings_shared(rep, model, det):
 
 def group_recompute(rep, model):
     """BycycleGroup.recompute_edges: every member is recomputed with the same reduction and the group's tables keep mirroring the members'"""
-    rep.rule('GROUP-RECOMPUTE', 'BycycleGroup.recompute_edges(r) calls recompute_edges(r) on the model at every position ([i] / [i][j]) and afterwards df_features at that position '
-                                'is that model\'s (recomputed) table: models keep mirroring df_features after an edge recomputation')
+    rep.rule('GROUP-RECOMPUTE', 'BycycleGroup.recompute_edges(r) recomputes the model at every position ([i] / [i][j]) with THAT model\'s stored thresholds lowered by r, and afterwards '
+                                'df_features at that position is that model\'s (recomputed) table: models keep mirroring df_features after an edge recomputation')
     g = model.funcs.get(f'{GRP}.recompute_edges')
     if g is None:
         rep.unresolved('GROUP-RECOMPUTE', 'method', '-', 'BycycleGroup.recompute_edges not found')
@@ -586,8 +586,11 @@ def group_recompute(rep, model):
         ctx = new_ctx(model, (model.find('recompute_edges').qual,))       # the functional recomputation stays a call; the members' method is followed
         grp_obj = E.make_object(ctx, model, GRP, SETTINGS)
 
+        # every member carries thresholds of its own (a member can be re-tuned through bg[i]): the group recomputation lowers each member's own
+        mth = ('dict', tuple((k, ('param', 'member_' + v[1])) for k, v in TH[1]))
+
         def member(tag):
-            o = E.make_object(ctx, model, BY, SETTINGS)
+            o = E.make_object(ctx, model, BY, dict(SETTINGS, thresholds=mth))
             E.attrs(ctx, o).update(df_features=('atom', f'FITTED_{tag}', 'table'), sig=('atom', f'SIG_{tag}', 'arr'), fs=('param', 'fs'), f_range=('param', 'f_range'))
             return o
         if nd == 2:
@@ -608,7 +611,7 @@ def group_recompute(rep, model):
         E.run(model, g.qual, {'self': grp_obj, 'reduction': r}, ctx=ctx)
         evs = [e for e in E.calls_to(ctx, 'recompute_edges') if e['kind'] == 'pkgcall' and '.objs.' not in e['name']]
         rc = model.find('recompute_edges')
-        want_tk = ('dict', tuple(sorted((k, T.sub(v, r) if k.endswith('threshold') else v) for k, v in TH[1])))
+        want_tk = ('dict', tuple(sorted((k, T.sub(v, r) if k.endswith('threshold') else v) for k, v in mth[1])))
         got_tables = E.attrs(ctx, grp_obj).get('df_features')
         problems = []
         if len(evs) != len(flat):
